@@ -129,6 +129,27 @@ class Ja3Oracle(object):
         return bad
 
 
+NEAR_GREASE = [0x1a2a, 0x0a1a, 0xfa0a, 0x3a0a, 0x2aea, 0x0a8a, 0x0a0b, 0x1a1b, 0xaa0a, 0x0aaa]
+
+
+def near_grease(rng, hello):
+    """unknown extension types and supported-group codes that LOOK like RFC 8701 GREASE (low nibbles 'a') but are not
+    (the two bytes differ): they are ordinary unknown values and belong into JA3"""
+    from cryptoparser.tls import extension as ex
+    from cryptoparser.tls.grease import TlsInvalidTypeTwoByte
+    from cryptodatahub.tls.algorithm import TlsExtensionType, TlsNamedCurve
+    known_ext = {m.value.code for m in TlsExtensionType}
+    known_grp = {m.value.code for m in TlsNamedCurve}
+    code = rng.choice([c for c in NEAR_GREASE if c not in known_ext])
+    present = {e.extension_type.value.code for e in hello.extensions}
+    if code not in present:
+        hello.extensions.append(ex.TlsExtensionUnparsed(TlsInvalidTypeTwoByte(code), bytearray(b'')))
+    if 10 not in present:
+        grp = rng.choice([c for c in NEAR_GREASE if c not in known_grp])
+        hello.extensions.append(ex.TlsExtensionEllipticCurves(
+            [TlsInvalidTypeTwoByte(grp), TlsNamedCurve.X25519, TlsInvalidTypeTwoByte(0x11ec if 0x11ec not in known_grp else 0xfe32)]))
+
+
 def run(run, driver_ok=True, deep=False):
     tier = 'thorough' if deep else run.tier
     n = 400 if tier == 'quick' else 20000
@@ -136,12 +157,25 @@ def run(run, driver_ok=True, deep=False):
     for i in range(n):
         try:
             h = gen_tls.client_hello(run.rng, modelled_only=(i % 4 != 0))
+            if i % 5 == 0:
+                near_grease(run.rng, h)
             data = bytes(h.compose())
         except Exception as exc:  # pylint: disable=broad-except
             run.count('generator_errors', type(exc).__name__)
             continue
         case = {'kind': 'ja3', 'data': hx(data)}
         cases.append(case)
+        if i % 3 == 0:
+            # the same hello as written by the independent RFC encoder of C06 (bytes that do not come from compose():
+            # a composer that rewrites a field produces a fixed point of its own output)
+            try:
+                from harness.props import c06
+                ref = c06.reference(h)
+                if ref != data:
+                    run.count('reference_differs_from_compose', 'hellos')
+                cases.append({'kind': 'ja3', 'data': hx(ref)})
+            except Exception:  # pylint: disable=broad-except
+                pass
         if len(h.extensions) or len(h.cipher_suites) > 1:
             run.note_nontrivial(case['data'])
         run.count('extensions', str(min(len(h.extensions), 8)))
